@@ -3,6 +3,7 @@
 generated artefact are read back and asserted equal / bijective (z3 Distinct + range)."""
 from __future__ import annotations
 
+from ..paths import child_env
 import ast
 import os
 import re
@@ -11,6 +12,7 @@ import subprocess
 import z3
 
 from .. import encoders, proj
+from ..paths import REPO
 from . import chx_props
 
 IDENT = re.compile(r"^[A-Za-z_][A-Za-z0-9_]*$")
@@ -28,8 +30,8 @@ def projects():
               rxn(6, ["c-C3H2", "H+"], ["l-C3H2", "H+"]), rxn(7, ["Si", "CR"], ["Si+", "e-"], 101), rxn(8, ["N2", "D+"], ["N2D+"]), rxn(9, ["CO"], ["#CO"], 200), rxn(10, ["GRAIN0", "e-"], ["GRAIN-"]), rxn(11, ["Si+", "Si+"], ["Si++++", "e-", "e-"]),
               rxn(12, ["HCO+", "e-"], ["H", "CO"]), rxn(13, ["H", "#H"], ["H2"]), rxn(14, ["O-", "e-"], ["O--"]), rxn(15, ["GRAIN-", "e-"], ["GRAIN--"]), rxn(16, ["O", "e-"], ["O-"])]
     out = [("naming", "net.naunet", _native_file(naming), "naunet", {}, "hh93")]
-    out.append(("minimal.kida", "minimal.kida", open("/repo/tests/data/minimal.kida").read(), "kida", {}, ""))
-    out.append(("primordial", "primordial.krome", open("/repo/naunet/examples/primordial/primordial.krome").read(), "krome", {"elements": "e,H,D,He", "pseudo": "Photon", "cooling": "CIC_HI,RC_HII"}, ""))
+    out.append(("minimal.kida", "minimal.kida", open(REPO + "/tests/data/minimal.kida").read(), "kida", {}, ""))
+    out.append(("primordial", "primordial.krome", open(REPO + "/naunet/examples/primordial/primordial.krome").read(), "krome", {"elements": "e,H,D,He", "pseudo": "Photon", "cooling": "CIC_HI,RC_HII"}, ""))
     ucl = "\n".join(["H,H,NAN,H2,NAN,NAN,NAN,1e-17,0.0,0.0,0,0", "HE,CRP,NAN,HE+,E-,NAN,NAN,0.5,0.0,0.0,10,41000", "MG,H+,NAN,MG+,H,NAN,NAN,1e-9,0.0,0.0,10,41000", "SI,CL+,NAN,SI+,CL,NAN,NAN,1e-9,0.0,0.0,10,41000", "CO,FREEZE,NAN,#CO,NAN,NAN,NAN,1.0,0.0,0.0,0.0,10000.0"]) + "\n"
     out.append(("uclchem-upper", "net.ucl", ucl, "uclchem", {"elements": "E,H,HE,C,O,MG,SI,CL", "pseudo": "CR,CRP,PHOTON,CRPHOT", "replacement": "E:e,HE:He,MG:Mg,SI:Si,CL:Cl"}, "rr07"))
     return out
@@ -119,7 +121,7 @@ def check_project(chk, name, fname, content, fmt, opt, model, kind):
     # 5. Enzo patch tables
     if kind == "dense":
         env = dict(os.environ, TQDM_DISABLE="1", PYTHONHASHSEED="0")
-        env.pop("PYTHONPATH", None)
+        child_env(env)
         r = subprocess.run([proj.PY, "-c", "import sys; from naunet.console import main; sys.exit(main())", "render", "--no-interaction", "--force", "--patch", "enzo"], capture_output=True, text=True, cwd=pdir, env=env, timeout=600)
         eh = os.path.join(pdir, "enzo", "naunet_enzo.h")
         if r.returncode != 0 or not os.path.exists(eh):
